@@ -32,6 +32,24 @@ CLAIMS = {
                  "are decided by correspondence and by the oracle against the unlimited run for every N in 1..M+2."),
         "ref": "DESIGN.md §4 C06",
     },
+    "C07": {
+        "technique": "Lean 4 theorems on the aggregate model (decimal render/parse round trip; COUNT/SUM/MIN/AVG specifications in ℚ) + CLI correspondence + Python Fraction oracle",
+        "text": ("Theorems for every list of naturals rendered in decimal under the aggregated column (any length, machine range): "
+                 "parse∘show = id on naturals, COUNT = number of rows, SUM = Σ, MIN is an attained lower bound, AVG = Σ/n in ℚ (not "
+                 "truncated; D14 fixed), empty-result values. The variances/standard deviations are modelled in ℚ and compared "
+                 "numerically (relative tolerance 1e-9) with the binary and with a Python Fraction/math oracle; their f64 rounding, "
+                 "'WHERE before aggregation' and 'aggregate of a scalar expression' are decided by correspondence/oracle, not by proof."),
+        "ref": "DESIGN.md §4 C07",
+    },
+    "C08": {
+        "technique": "Lean 4 theorems on partition_output_buffer (fold invariant: fibres, distinct keys, coverage ⇒ conservation of COUNT and SUM) + CLI correspondence + recomputation oracle",
+        "text": ("Theorems for every list of buffered rows and every grouping key list: each group is exactly the fibre of its key "
+                 "(arrival order, non-empty), keys are pairwise distinct, every row's key has a group; hence group COUNTs add up to the "
+                 "ungrouped COUNT, group SUMs to the ungrouped SUM, and a group's aggregate equals the aggregate of the ungrouped rows "
+                 "restricted to key = value. Group order is unspecified in the code (HashMap) and compared as a multiset (within "
+                 "ORDER BY tie runs); ORDER BY on key/aggregate and rendering are decided by correspondence and the Python oracle."),
+        "ref": "DESIGN.md §4 C08",
+    },
     "C10": {
         "technique": "Lean 4 theorems over a hand-written model (well-founded total lexer/parser, panic-free result types, rejection lemmas) + differential correspondence with Parser::parse and the binary",
         "text": ("Theorems (all token lists / argument vectors): the lexer and parser model are total (accepted by Lean's "
